@@ -35,9 +35,17 @@ def ev_text(ev):
     return {"close": "X", "lost": "L", "reset_begin": "RB", "reset_end": "RE"}[k]
 
 
+def strip_r(x):
+    """E:rid:R:<class>:<tsn> -> E:rid:R (what the model produces)."""
+    return x.split(":")[0] + ":" + x.split(":")[1] + ":R" if x.startswith("E:") and x.split(":")[2] == "R" else x
+
+
+def strip_steps(steps):
+    return [canon_step([strip_r(x) for x in st]) for st in steps]
+
+
 def canon_step(items):
     """Within one settle the relative order of request endings is not observable: sort them."""
-    items = [x.split(":")[0] + ":" + x.split(":")[1] + ":R" if x.startswith("E:") and x.split(":")[2] == "R" else x for x in items]
     keep = [x for x in items if not x.startswith("E:")]
     # ACKs written for incoming frames first (two frames in one read chunk are both acknowledged before any woken
     # task runs; the model settles after each frame), then the data frames in order, then the endings
@@ -99,7 +107,7 @@ def gen_scenario(rng, focus="mixed", length=None):
             elif x < 0.88 and live:
                 ev = ("cancel", rng.choice(live)[0])
             elif x < 0.91:
-                ev = ("data",) if rng.random() < 0.6 or not issued else ("listen", rng.choice(issued)[1])
+                ev = (("data",) if rng.random() < 0.5 else ("data", rng.randrange(4))) if rng.random() < 0.6 or not issued else ("listen", rng.choice(issued)[1])
             elif x < (0.99 if focus == "close" else 0.94) and focus in ("close", "mixed"):
                 ev = rng.choice([("close",), ("lost",), ("lost",), ("reset_begin",), ("reset_end",)])
             else:
@@ -257,6 +265,31 @@ def mon_delivery(events, steps):
                 if r0 in en and en[r0][1] == "TIMEOUT":
                     return ("request %d was waiting for its response when the response arrived (event %d), but ended with a "
                             "response timeout: the response was not delivered to it" % (r0, i))
+    # which response a caller got: the harness numbers the responses it injects (TSN = 1, 2, ...); a request never returns
+    # a response that had arrived before the request was issued (such a response was late for an earlier request)
+    arrived = {}
+    k = 0
+    for i, e in enumerate(events):
+        if e[0] == "rsp":
+            k += 1
+            arrived[k % 256] = i
+        elif e[0] == "rsp2":
+            k += 2
+            arrived[(k - 1) % 256] = i
+            arrived[k % 256] = i
+    issued_at = {e[1]: i for i, e in enumerate(events) if e[0] == "issue"}
+    for st in steps:
+        for x in st:
+            if x.startswith("E:") and ":R:" in x:
+                parts = x.split(":")
+                rid = int(parts[1])
+                try:
+                    tsn = int(parts[-1])
+                except ValueError:
+                    continue
+                if tsn in arrived and rid in issued_at and arrived[tsn] < issued_at[rid] and k < 256:
+                    return ("request %d (issued at event %d) returned response number %d, which had arrived at event %d - before "
+                            "the request existed: a stale response was replayed to it" % (rid, issued_at[rid], tsn, arrived[tsn]))
     return None
 
 
@@ -351,8 +384,8 @@ def campaign(chk, n, focus, monitors, extra_events=None):
             for x in st:
                 if x.startswith("E:"):
                     chk.count("outcome_" + x.split(":")[2])
-        if (isteps, inl, ips) != (msteps, mnl, mps) and tie_bad is None:
-            k = next((i for i, (a, b) in enumerate(zip(isteps, msteps)) if a != b), -1)
+        if (strip_steps(isteps), inl, ips) != (msteps, mnl, mps) and tie_bad is None:
+            k = next((i for i, (a, b) in enumerate(zip(strip_steps(isteps), msteps)) if a != b), -1)
             tie_bad = {"events": [ev_text(e) for e in events], "first_diff_step": k,
                        "impl": isteps[k] if k >= 0 else [inl, ips], "model": msteps[k] if 0 <= k < len(msteps) else [mnl, mps]}
         for name, mon in monitors:
